@@ -3,6 +3,7 @@ package engine
 import (
 	"fmt"
 	"math/bits"
+	"sort"
 	"strings"
 )
 
@@ -46,6 +47,9 @@ type Term struct {
 	smt  string
 	// small-domain hint for vars: nil or allowed constant values (used for fast folding)
 	Dom []uint64
+	Lo, Hi int64 // declared signed range of a harness variable (HasB)
+	HasB bool
+	Coef []uint64 // for Op=="lin": coefficient per Arg; C is the constant summand
 }
 
 func mask(w int) uint64 {
@@ -141,6 +145,37 @@ func (t *Term) SMT() string {
 		s = fmt.Sprintf("(fp.roundToIntegral RTZ %s)", t.Args[0].SMT())
 	case "fp.round":
 		s = fmt.Sprintf("(fp.roundToIntegral RNA %s)", t.Args[0].SMT())
+	case "lin":
+		var sb strings.Builder
+		n := len(t.Args)
+		if t.C != 0 {
+			n++
+		}
+		if n > 1 {
+			sb.WriteString("(bvadd")
+		}
+		for i, a := range t.Args {
+			if n > 1 {
+				sb.WriteByte(' ')
+			}
+			if t.Coef[i] == 1 {
+				sb.WriteString(a.SMT())
+			} else {
+				sb.WriteString("(bvmul ")
+				sb.WriteString(BVC(t.S.W, t.Coef[i]).SMT())
+				sb.WriteByte(' ')
+				sb.WriteString(a.SMT())
+				sb.WriteByte(')')
+			}
+		}
+		if t.C != 0 {
+			sb.WriteByte(' ')
+			sb.WriteString(BVC(t.S.W, t.C).SMT())
+		}
+		if n > 1 {
+			sb.WriteByte(')')
+		}
+		s = sb.String()
 	case "fp.add", "fp.sub", "fp.mul", "fp.div":
 		s = fmt.Sprintf("(%s RNE %s %s)", t.Op, t.Args[0].SMT(), t.Args[1].SMT())
 	default:
@@ -170,6 +205,16 @@ func same(a, b *Term) bool {
 	}
 	if a.Op != b.Op || len(a.Args) != len(b.Args) || a.S != b.S || a.P1 != b.P1 || a.P2 != b.P2 {
 		return false
+	}
+	if a.Op == "lin" {
+		if a.C != b.C {
+			return false
+		}
+		for i := range a.Coef {
+			if a.Coef[i] != b.Coef[i] {
+				return false
+			}
+		}
 	}
 	// cheap structural check via smt text if already computed
 	if a.smt != "" && b.smt != "" {
@@ -311,6 +356,12 @@ func Eq(a, b *Term) *Term {
 	}
 	if a.S.K == KFP {
 		return &Term{Op: "fp.eq", S: BoolSort, Args: []*Term{a, b}}
+	}
+	if a.S.K == KBV && (a.Op == "lin" || b.Op == "lin") {
+		d := linCombine(a, 1, b, mask(a.S.W))
+		if d.IsConst() {
+			return BoolC(d.C == 0)
+		}
 	}
 	return &Term{Op: "=", S: BoolSort, Args: []*Term{a, b}}
 }
@@ -463,22 +514,161 @@ func bin(op string, a, b *Term) *Term {
 		if b.IsConst() && b.C == 1 {
 			return a
 		}
+	case "bvsrem", "bvurem":
+		if b.IsConst() && b.C == 1 {
+			return BVC(w, 0)
+		}
 	}
 	return &Term{Op: op, S: a.S, Args: []*Term{a, b}}
 }
 
-func Add(a, b *Term) *Term  { return bin("bvadd", a, b) }
-func Sub(a, b *Term) *Term  { return bin("bvsub", a, b) }
-func Mul(a, b *Term) *Term  { return bin("bvmul", a, b) }
+func Add(a, b *Term) *Term {
+	if a.IsConst() && b.IsConst() {
+		return bin("bvadd", a, b)
+	}
+	return linCombine(a, 1, b, 1)
+}
+func Sub(a, b *Term) *Term {
+	if a.IsConst() && b.IsConst() {
+		return bin("bvsub", a, b)
+	}
+	return linCombine(a, 1, b, mask(a.S.W))
+}
+func Mul(a, b *Term) *Term {
+	if a.S != b.S {
+		panic("bvmul sort mismatch")
+	}
+	if a.IsConst() && b.IsConst() {
+		return bin("bvmul", a, b)
+	}
+	if a.IsConst() {
+		return linScale(b, a.C)
+	}
+	if b.IsConst() {
+		return linScale(a, b.C)
+	}
+	return bin("bvmul", a, b)
+}
+
+type linPart struct {
+	t *Term
+	c uint64
+}
+
+func linParts(t *Term, k uint64, w int, out []linPart, c *uint64) []linPart {
+	m := mask(w)
+	switch {
+	case t.IsConst():
+		*c = (*c + k*t.C) & m
+	case t.Op == "lin":
+		*c = (*c + k*t.C) & m
+		for i, a := range t.Args {
+			out = append(out, linPart{a, (k * t.Coef[i]) & m})
+		}
+	default:
+		out = append(out, linPart{t, k & m})
+	}
+	return out
+}
+
+func linBuild(parts []linPart, c uint64, w int) *Term {
+	m := mask(w)
+	// merge equal atoms (canonical order by SMT text)
+	for i := range parts {
+		parts[i].t.SMT()
+	}
+	sort.SliceStable(parts, func(i, j int) bool { return parts[i].t.smt < parts[j].t.smt })
+	var atoms []*Term
+	var coefs []uint64
+	for _, p := range parts {
+		n := len(atoms)
+		if n > 0 && atoms[n-1].smt == p.t.smt {
+			coefs[n-1] = (coefs[n-1] + p.c) & m
+			continue
+		}
+		atoms = append(atoms, p.t)
+		coefs = append(coefs, p.c&m)
+	}
+	var a2 []*Term
+	var c2 []uint64
+	for i := range atoms {
+		if coefs[i] != 0 {
+			a2 = append(a2, atoms[i])
+			c2 = append(c2, coefs[i])
+		}
+	}
+	if len(a2) == 0 {
+		return BVC(w, c)
+	}
+	if len(a2) == 1 && c2[0] == 1 && c&m == 0 {
+		return a2[0]
+	}
+	return &Term{Op: "lin", S: BV(w), Args: a2, Coef: c2, C: c & m}
+}
+
+func linCombine(a *Term, ka uint64, b *Term, kb uint64) *Term {
+	if a.S != b.S {
+		panic(fmt.Sprintf("lin sort mismatch %v %v: %s | %s", a.S, b.S, a.SMT(), b.SMT()))
+	}
+	w := a.S.W
+	var c uint64
+	parts := linParts(a, ka, w, nil, &c)
+	parts = linParts(b, kb, w, parts, &c)
+	return linBuild(parts, c, w)
+}
+
+func linScale(a *Term, k uint64) *Term {
+	w := a.S.W
+	var c uint64
+	parts := linParts(a, k, w, nil, &c)
+	return linBuild(parts, c, w)
+}
 func BAnd(a, b *Term) *Term { return bin("bvand", a, b) }
 func BOr(a, b *Term) *Term  { return bin("bvor", a, b) }
 func BXor(a, b *Term) *Term { return bin("bvxor", a, b) }
-func SDiv(a, b *Term) *Term { return bin("bvsdiv", a, b) }
-func UDiv(a, b *Term) *Term { return bin("bvudiv", a, b) }
+func SDiv(a, b *Term) *Term {
+	if b.IsConst() && sx(b.C, b.S.W) > 1 {
+		if r, ok := splitDiv(a, b.C, func(t *Term) *Term { return bin("bvsdiv", t, b) }); ok {
+			return r
+		}
+	}
+	return bin("bvsdiv", a, b)
+}
+func UDiv(a, b *Term) *Term {
+	if b.IsConst() && b.C != 0 && b.C&(b.C-1) == 0 && !a.IsConst() {
+		return LShr(a, BVC(a.S.W, uint64(log2(b.C))))
+	}
+	if b.IsConst() && sx(b.C, b.S.W) > 1 {
+		if r, ok := splitDiv(a, b.C, func(t *Term) *Term { return bin("bvudiv", t, b) }); ok {
+			return r
+		}
+	}
+	return bin("bvudiv", a, b)
+}
 func SRem(a, b *Term) *Term { return bin("bvsrem", a, b) }
-func URem(a, b *Term) *Term { return bin("bvurem", a, b) }
-func Shl(a, b *Term) *Term  { return bin("bvshl", a, b) }
-func LShr(a, b *Term) *Term { return bin("bvlshr", a, b) }
+func URem(a, b *Term) *Term {
+	if b.IsConst() && b.C != 0 && b.C&(b.C-1) == 0 && !a.IsConst() {
+		return bin("bvand", a, BVC(a.S.W, b.C-1))
+	}
+	return bin("bvurem", a, b)
+}
+func Shl(a, b *Term) *Term {
+	if b.IsConst() && !a.IsConst() {
+		if b.C >= uint64(a.S.W) {
+			return BVC(a.S.W, 0)
+		}
+		return linScale(a, uint64(1)<<b.C)
+	}
+	return bin("bvshl", a, b)
+}
+func LShr(a, b *Term) *Term {
+	if b.IsConst() && b.C > 0 && b.C < 62 {
+		if r, ok := splitDiv(a, uint64(1)<<b.C, func(t *Term) *Term { return bin("bvlshr", t, b) }); ok {
+			return r
+		}
+	}
+	return bin("bvlshr", a, b)
+}
 func AShr(a, b *Term) *Term { return bin("bvashr", a, b) }
 
 func BNot(a *Term) *Term {
@@ -492,7 +682,7 @@ func Neg(a *Term) *Term {
 	if a.IsConst() {
 		return BVC(a.S.W, -a.C)
 	}
-	return &Term{Op: "bvneg", S: a.S, Args: []*Term{a}}
+	return linScale(a, mask(a.S.W))
 }
 
 func cmp(op string, a, b *Term) *Term {
